@@ -142,22 +142,21 @@ impl Z80 {
             match self.int_mode {
                 // For zx spectrum both Im0 and Im1 are same
                 IntMode::Im0 | IntMode::Im1 => {
+                    // 7 (acknowledge cycle) + 3 + 3 = 13 clocks
+                    bus.wait_internal(7);
                     execute_push_16(self, bus, RegName16::PC, 3);
                     self.regs.set_pc(0x0038);
-
-                    // 3 + 3 + 7 = 13 clocks
-                    bus.wait_internal(7);
                 }
                 // jump using interrupt vector
                 IntMode::Im2 => {
+                    // 7 (acknowledge cycle) + 3 + 3 + 3 + 3 = 19 clocks
+                    bus.wait_internal(7);
                     execute_push_16(self, bus, RegName16::PC, 3);
                     // build interrupt vector
                     let addr = (((self.regs.get_i() as u16) << 8) & 0xFF00)
                         | ((bus.read_interrupt() as u16) & 0x00FF);
                     let addr = bus.read_word(addr, 3);
                     self.regs.set_pc(addr);
-                    bus.wait_internal(7);
-                    // 3 + 3 + 3 + 3 + 7 = 19 clocks
                 }
             }
             // mem_ptr is set to PC
